@@ -71,6 +71,7 @@ TNext ==
   \/ Is("apipublish")  /\ UNCHANGED svars
   \/ Is("quiet")       /\ UNCHANGED svars
   \/ Is("note")        /\ UNCHANGED svars
+  \/ Is("view")        /\ UNCHANGED svars      \* (the broker's view of its stores at a quiescence point: judged by TraceBroker)
 
 TSpec == TInit /\ [][TNext]_tvars
 
